@@ -264,6 +264,11 @@ def _gen_op(o, g, f, cfg, cells, cols, models, rows_n, cell, spec_for):
             return None
         bad = g.choice([x for x in (0, 2, 3, n + 1, n + 2, max(n - 1, 0)) if x != n and x != 1])
         return {'op': 'setitem_reject', 't': t, 'col': c, 'val': {g.choice(['list', 'tuple']): [enc(cell()) for _ in range(bad)]}, 'how': how}
+    if o == 'setitem_from' and g.random() < 0.2:
+        # d[c] = other.keys(): the column names of another table (the library's own list subclass) become cells
+        cands = [u for u, mu in enumerate(models) if len(mu.cols) == 1]
+        if cands:
+            return {'op': o, 't': t, 'col': g.choice(cols), 'u': g.choice(cands), 'ucol': None, 'keys': True}
     if o == 'setitem_from':
         # d[c] = other[c2]: the value handed over IS the column list of another live table
         cands = [(u, c2) for u, mu in enumerate(models) for c2 in mu.cols if mu.n() in (n, 1) or not m.cols]
@@ -333,10 +338,14 @@ def _gen_op(o, g, f, cfg, cells, cols, models, rows_n, cell, spec_for):
         if n == 0:
             return {'op': o, 't': t, 'idx': []}
         k = g.choice([0, 1, 2, 3, n])
-        if g.random() < 0.15:
-            lo = g.randrange(0, n)
-            hi = g.randrange(lo, n)
-            return {'op': o, 't': t, 'idx': list(range(lo, hi + 1)), 'as': 'range'}
+        if g.random() < 0.2:
+            # a range object as row selector: every start / stop / step a range can have, as long as each index exists
+            cands = [(0, n, 1), (n - 1, -1, -1), (-n, 0, 1), (-1, -n - 1, -1), (0, n, 2), (-2, 0, 1), (n - 1, -1, -2), (1, n, 1), (-1, -3, -1)]
+            a_, b_, c_ = g.choice(cands)
+            idx = list(range(a_, b_, c_))
+            if idx and all(-n <= i < n for i in idx):
+                return {'op': o, 't': t, 'idx': idx, 'as': 'range', 'range': [a_, b_, c_]}
+            return None
         return {'op': o, 't': t, 'idx': [g.randrange(-n, n) for _ in range(k)], 'as': g.choice([None, None, 'np'])}
     if o == 'project':
         if not m.cols:
@@ -614,7 +623,12 @@ def model_apply(op, models):
         u = get(op.get('u'))
         if u is None:
             return ('skip',)
-        if o == 'setitem_from':
+        if o == 'setitem_from' and op.get('keys'):
+            if not u.cols:
+                return ('skip',)
+            # the order of several names is the table's column order, which is not part of the statement: one-column sources only
+            return ('skip',) if len(u.cols) > 1 else _setitem_like(m, op, [(op['col'], list(u.cols))])
+        elif o == 'setitem_from':
             if op['ucol'] not in u.cols:
                 return ('skip',)
             items = [(op['col'], u.column(op['ucol']))]
@@ -897,6 +911,24 @@ def model_apply(op, models):
         rows = [r for r in m.rows if ((r[op['col']] is None) != bool(op.get('neg')))]
         return ('table', M(m.cols, rows))
     return ('skip',)
+
+
+def _setitem_like(m, op, items):
+    trial = m.copy()
+    for c, vals in items:
+        col = _broadcast(list(vals), trial.n(), bool(trial.cols))
+        if col is None:
+            return ('skip',)
+        if c not in trial.cols:
+            trial.cols.append(c)
+        if not trial.rows and len(col) and len(trial.cols) == 1:
+            trial.rows = [{} for _ in col]
+        if len(trial.rows) != len(col):
+            return ('skip',)
+        for r, v in zip(trial.rows, col):
+            r[c] = v
+    m.cols, m.rows = trial.cols, trial.rows
+    return ('mutate', op['t'])
 
 
 def _concat(ms):
@@ -1201,6 +1233,9 @@ def real_apply(op, reals, dictable):
         else:
             d[op['col']] = v
         return None
+    if o == 'setitem_from' and op.get('keys'):
+        d[op['col']] = reals[op['u']].keys()
+        return None
     if o == 'setitem_from':
         d[op['col']] = reals[op['u']][op['ucol']]
         return None
@@ -1237,8 +1272,8 @@ def real_apply(op, reals, dictable):
         if op.get('as') == 'np' and len(op['idx']):
             import numpy as np
             return d[np.array(op['idx'], dtype=int)]
-        if op.get('as') == 'range':
-            return d[range(op['idx'][0], op['idx'][-1] + 1)]
+        if op.get('as') == 'range' and op.get('range') and list(range(*op['range'])) == list(op['idx']):
+            return d[range(*op['range'])]
         return d[list(op['idx'])]
     if o == 'project':
         return d[list(op['cols'])]
